@@ -19,7 +19,7 @@ STAGES = {
 ALLMECH = '{"PLAIN", "LOGIN", "CRAM-MD5", "XOAUTH2", "SCRAM-SHA-1", "SCRAM-SHA-256", "SCRAM-SHA-1-PLUS", "SCRAM-SHA-256-PLUS"}'
 STAGES['C14'] = {
     'quick': [('honest-all-mechanisms', 'SaslHonest', dict(MECHS=ALLMECH, UCLASSES='{"ascii", "unicode", "comma", "eq", "both", "empty", "ctl"}',
-                                                          PCLASSES='{"ascii", "unicode", "comma", "empty", "ctl", "space"}', WRONGS='{"", "pass", "user"}',
+                                                          PCLASSES='{"ascii", "unicode", "comma", "empty", "ctl", "space", "huge"}', WRONGS='{"", "pass", "user"}',
                                                           TLSVERS='{"1.2", "1.3"}', RETRY='{FALSE}', ITERS='<<1, 2, 4096, 600>>',
                                                           SALTS='<<"sixteen", "one", "long", "zeros">>', SUFFIXES='<<"plain", "printable", "b64", "long">>', VIAS='{"smtp"}', ABORTS='{""}')),
               ('retry-same-auth-object', 'SaslHonest', dict(MECHS=ALLMECH, UCLASSES='{"ascii", "comma"}', PCLASSES='{"ascii"}', WRONGS='{"", "pass"}',
@@ -46,6 +46,10 @@ def extra_scenarios(tier, seed):
         # the caller's Auth object was used before in an exchange that failed at the server signature
         for s in scripts:
             out.append(dict(kind='adv', mech=mech, script=s, prior='authobj', sent=[], ok=(s == scripts[-1])))
+        # hand-written scripts with symbols outside the alphabet of the design model (prior = "hand": no prediction to compare with)
+        for s in (['empty', 'validFirst', 'srvError', 'ok235'], ['empty', 'srvError', 'ok235'], ['srvError', 'ok235'],
+                  ['empty', 'validFirst', 'empty', 'staleFinal', 'ok235'], ['empty', 'validFirst', 'srvError', 'validFinal', 'ok235']):
+            out.append(dict(kind='adv', mech=mech, script=s, prior='hand', sent=[], ok=False))
     return out
 
 
